@@ -78,7 +78,7 @@ CLAIMS['C20'] = dict(
 
 CLAIMS['C01'] = dict(
   technique='symbolic shape typing by abstract interpretation (einsum letter unification, block concatenation, Kronecker reshape) + scalar-degree and term-count facets',
-  text='Decides the structural part only, for d = 2,3 (thorough: 4) and symbolic unequal ranks / mode sizes: every contraction, '
+  text='Decides the structural part only, for d = 2,3 (thorough: 4, 5) and symbolic unequal ranks / mode sizes: every contraction, '
        'einsum, concatenation (axis and zero-block sizes of add), Kronecker reshape, index and store of the evaluation and '
        'algebra routines is dimension consistent for tensor and number operands; add/sub/mul/outer/add_many/outer_many/copy '
        'return well-formed tensors with ranks a+b / a*b / a and the input mode sizes; full returns exactly the d mode axes; '
@@ -87,7 +87,7 @@ CLAIMS['C01'] = dict(
        'adds all prod(n) terms undivided (term-count facet); no product over the vector of mode sizes is formed in integer '
        'arithmetic.',
   note='Not decided (the numerical core): values, weights of mean, block contents, rounding, the bit-for-bit integer claim; '
-       'getter (numba). Loops over cores are unrolled for d <= 4: first/middle/last core behaviour is covered, not an induction on d.')
+       'getter (numba). Loops over cores are unrolled for d <= 5: first/middle/last core behaviour is covered, not an induction on d.')
 CLAIMS['C07'] = dict(
   technique='kind/shape typing of the ALS sweeps + solve-path and weight-dependency rules + stop protocol rules',
   text='Decides the structural part only: the slice-skipping test is applied to a value whose truth means "no samples"; '
